@@ -253,62 +253,68 @@ Definition dec_fhdr (last : Z) (bs : list N) : option (option (N * Z) * list N) 
     else None
   end.
 
+(** loops of the reader, abstracted over the reader [dv] of one value *)
+Fixpoint dec_elems (dv : list N -> option (tval * list N)) (n : nat) (bs : list N) : option (list tval * list N) :=
+  match n with
+  | O => Some ([], bs)
+  | S n' => match dv bs with
+            | Some (v, r) => match dec_elems dv n' r with
+                             | Some (vs, r') => Some (v :: vs, r')
+                             | None => None
+                             end
+            | None => None
+            end
+  end.
+
+Fixpoint dec_pairs (dk dv : list N -> option (tval * list N)) (n : nat) (bs : list N) : option (list (tval * tval) * list N) :=
+  match n with
+  | O => Some ([], bs)
+  | S n' => match dk bs with
+            | Some (k, r) =>
+              match dv r with
+              | Some (v, r1) => match dec_pairs dk dv n' r1 with
+                                | Some (kvs, r') => Some ((k, v) :: kvs, r')
+                                | None => None
+                                end
+              | None => None
+              end
+            | None => None
+            end
+  end.
+
+(** fields up to and including STOP; [k] bounds the number of fields (each takes at least one byte) *)
+Fixpoint dec_fields (dv : ttype -> list N -> option (tval * list N)) (k : nat) (last : Z) (bs : list N)
+  : option (list (Z * tval) * list N) :=
+  match k with
+  | O => None
+  | S k' =>
+    match dec_fhdr last bs with
+    | None => None
+    | Some (None, r) => Some ([], r)
+    | Some (Some (tc, id), r) =>
+      if tc =? 1 then
+        match dec_fields dv k' id r with Some (fs, r') => Some ((id, VBool true) :: fs, r') | None => None end
+      else if tc =? 2 then
+        match dec_fields dv k' id r with Some (fs, r') => Some ((id, VBool false) :: fs, r') | None => None end
+      else
+        match type_of_code tc with
+        | None => None
+        | Some ft =>
+          match dv ft r with
+          | Some (v, r1) =>
+            match dec_fields dv k' id r1 with Some (fs, r') => Some ((id, v) :: fs, r') | None => None end
+          | None => None
+          end
+        end
+    end
+  end.
+
 (** [dec_val d t bs]: read one value of wire type t in element position; d bounds the nesting depth
     (a value nested deeper than its own byte length does not exist). *)
 Fixpoint dec_val (d : nat) (t : ttype) (bs : list N) {struct d} : option (tval * list N) :=
   match d with
   | O => None
   | S d' =>
-    let elems := fix elems (et : ttype) (n : nat) (bs : list N) {struct n} : option (list tval * list N) :=
-      match n with
-      | O => Some ([], bs)
-      | S n' => match dec_val d' et bs with
-                | Some (v, r) => match elems et n' r with
-                                 | Some (vs, r') => Some (v :: vs, r')
-                                 | None => None
-                                 end
-                | None => None
-                end
-      end in
-    let pairs := fix pairs (kt vt : ttype) (n : nat) (bs : list N) {struct n} : option (list (tval * tval) * list N) :=
-      match n with
-      | O => Some ([], bs)
-      | S n' => match dec_val d' kt bs with
-                | Some (k, r) =>
-                  match dec_val d' vt r with
-                  | Some (v, r1) => match pairs kt vt n' r1 with
-                                    | Some (kvs, r') => Some ((k, v) :: kvs, r')
-                                    | None => None
-                                    end
-                  | None => None
-                  end
-                | None => None
-                end
-      end in
-    let fields := fix fields (k : nat) (last : Z) (bs : list N) {struct k} : option (list (Z * tval) * list N) :=
-      match k with
-      | O => None
-      | S k' =>
-        match dec_fhdr last bs with
-        | None => None
-        | Some (None, r) => Some ([], r)
-        | Some (Some (tc, id), r) =>
-          if tc =? 1 then
-            match fields k' id r with Some (fs, r') => Some ((id, VBool true) :: fs, r') | None => None end
-          else if tc =? 2 then
-            match fields k' id r with Some (fs, r') => Some ((id, VBool false) :: fs, r') | None => None end
-          else
-            match type_of_code tc with
-            | None => None
-            | Some ft =>
-              match dec_val d' ft r with
-              | Some (v, r1) =>
-                match fields k' id r1 with Some (fs, r') => Some ((id, v) :: fs, r') | None => None end
-              | None => None
-              end
-            end
-        end
-      end in
     match t with
     | TBool => match bs with
                | b :: tl => if b =? 1 then Some (VBool true, tl)
@@ -333,14 +339,14 @@ Fixpoint dec_val (d : nat) (t : ttype) (bs : list N) {struct d} : option (tval *
     | TList => match dec_lhdr bs with
                | Some (et, n, r) =>
                  if n <=? N.of_nat (length r) then
-                   match elems et (N.to_nat n) r with Some (vs, r') => Some (VList et vs, r') | None => None end
+                   match dec_elems (dec_val d' et) (N.to_nat n) r with Some (vs, r') => Some (VList et vs, r') | None => None end
                  else None
                | None => None
                end
     | TSet => match dec_lhdr bs with
               | Some (et, n, r) =>
                 if n <=? N.of_nat (length r) then
-                  match elems et (N.to_nat n) r with Some (vs, r') => Some (VSet et vs, r') | None => None end
+                  match dec_elems (dec_val d' et) (N.to_nat n) r with Some (vs, r') => Some (VSet et vs, r') | None => None end
                 else None
               | None => None
               end
@@ -353,7 +359,7 @@ Fixpoint dec_val (d : nat) (t : ttype) (bs : list N) {struct d} : option (tval *
                     if tb <? 256 then
                       match type_of_code (tb / 16), type_of_code (tb mod 16) with
                       | Some kt, Some vt =>
-                        match pairs kt vt (N.to_nat n) r1 with
+                        match dec_pairs (dec_val d' kt) (dec_val d' vt) (N.to_nat n) r1 with
                         | Some (kvs, r') => Some (VMap kvs, r')
                         | None => None
                         end
@@ -365,7 +371,7 @@ Fixpoint dec_val (d : nat) (t : ttype) (bs : list N) {struct d} : option (tval *
                 else None
               | None => None
               end
-    | TStruct => match fields (length bs) 0%Z bs with
+    | TStruct => match dec_fields (dec_val d') (length bs) 0%Z bs with
                  | Some (fs, r) => Some (VStruct fs, r)
                  | None => None
                  end
